@@ -1,0 +1,15 @@
+//go:build verif
+
+package scheduler
+
+// VerifLockIsFree reports whether the mutex of the build queue can be
+// acquired right now. It only exists in builds with the "verif" tag and
+// is used by the verification harness to check that no call leaves the
+// lock behind. It does not modify any state.
+func (bq *InMemoryBuildQueue) VerifLockIsFree() bool {
+	if !bq.lock.TryLock() {
+		return false
+	}
+	bq.lock.Unlock()
+	return true
+}
